@@ -10,6 +10,10 @@ NOTE = ("Trusted: Lean 4.33 kernel; axioms propext/Classical.choice/Quot.sound o
         "-O2 build (thorough: also -O0 and -march=native, all alignments). Constants and README tables are regenerated from "
         "/repo on every run (tools/gen.py). Clauses not yet carried by a theorem are listed in the evidence under not_yet_proved.")
 CLAIMED = {
+ "C11": ("Theorems parametric in the slot width W, bit offset, field width 1..W, value and prior contents: read-after-write, "
+         "every bit outside the range unchanged, only overlapping words written; signed helpers; the four instantiations of "
+         "the header are exercised exhaustively over (offset mod W, width)",
+         "Lean 4 proof via Nat.testBit extensionality + exhaustive (offset,width) correspondence"),
  "C02": ("Round-trip theorems for arrays of every length (delta signed/unsigned, frame-of-reference incl. random access, "
          "run-length); all codecs (also PFOR, group, dict, Elias, BP128) are modelled and tied to the code by the "
          "correspondence, with the round-trip / random-access monitors run on the implementation from exact-size copies",
